@@ -24,6 +24,7 @@ EXPLANATION = (
     "size up to a bound and every active set, with the floating root estimate modelled as any integer within one of the exact root: the "
     "matrix handed to write() is exactly the specified grid (size, inclusive equidistant values as exact linear forms, lexicographic order); write (W4), "
     "write_from_reader (G9) and Op.increment (G8) are decided the same way; every parameter of the FldExporter methods is read (W5: a wrapper that drops an option)"
+    "; W4's model engine answers every method, and anything done to the engine besides restart / process shows in the sequence"
 )
 ASSUMPTIONS = ["numpy.savetxt / hstack semantics; the printed digits are not decided", "round(pow(v, 1/n)) is within one of the exact integer root (G11 runs the integer correction for all three estimates)", "grid bounds: 1-3 input variables, sizes up to 29 (quick) / 69 (thorough)"]
 FLOORS = {"W5": 1, "G11": 3, "G10": 1, "N1": 2, "G8": 4, "W4": 8, "S4": 2, "G9": 1, "N2": 1}
